@@ -191,6 +191,31 @@ def _impl(tier, seed, search):
         ok, r = L.noraise('SE3.Delta', lambda: SE3.Delta(d).A, dict(d=d), 'SE3.Delta(d)', sig='SE3.Delta:raises')
         if ok and r is not None: L.close('SE3.Delta', r, b.delta2tr(d), 1e-12, 1.0, dict(d=d))
         elif ok: L.check('SE3.Delta', False, dict(d=d), 'SE3.Delta(d) holds None', sig='SE3.Delta:none')
+    # round 11: exponential of se(3) twists whose rotation is next to (not at) a half turn — closed form written out here (Rodrigues and
+    # the translational matrix with 1 - cos θ as it stands) — through trexp, SE3.Exp, Twist3.exp; Twist3.exp with a vector of angles in degrees
+    def sk_(w): return np.array([[0, -w[2], w[1]], [w[2], 0, -w[0]], [-w[1], w[0], 0]])
+    def exp6_(S):
+        v_, w_ = np.asarray(S[:3], float), np.asarray(S[3:], float); th_ = float(np.linalg.norm(w_)); K_ = sk_(w_ / th_)
+        R_ = np.eye(3) + math.sin(th_) * K_ + (1 - math.cos(th_)) * (K_ @ K_)
+        V_ = np.eye(3) * th_ + (1 - math.cos(th_)) * K_ + (th_ - math.sin(th_)) * (K_ @ K_)
+        T_ = np.eye(4); T_[:3, :3] = R_; T_[:3, 3] = V_ @ (v_ / th_); return T_
+    ax_ = np.array([2.0, -1.0, 2.0]) / 3.0
+    for d_ in (1e-3, 2e-5, 3e-6, 2e-7, -3e-6, -2e-5):
+        for mult_ in (1, 3):
+            S_ = np.r_[np.array([1.5, -2.0, 0.5]), ax_ * (mult_ * math.pi - d_)]
+            ref_ = exp6_(S_); inp_ = dict(S=S_, offset_from_half_turn=d_); sc_ = max(1.0, float(np.max(np.abs(ref_))))
+            for nm_, f_ in (('trexp', lambda: b.trexp(S_)), ('SE3.Exp', lambda: SE3.Exp(S_).A), ('Twist3.exp', lambda: Twist3(S_).exp().A), ('Twist3.SE3', lambda: Twist3(S_).SE3().A)):
+                ok, r = L.noraise(f'{nm_}(near half turn)', f_, inp_, f'{nm_} of a twist next to a half turn', sig=f'near-half-turn:{nm_}:raises')
+                if ok: L.close(f'{nm_}(near half turn)', np.asarray(r, float), ref_, 1e-9, sc_, inp_, what=f'{nm_}(S) is not the screw closed form next to a half turn', sig=f'near-half-turn:{nm_}')
+    Sd_ = np.array([0.4, -0.3, 0.2, 0.1, 0.5, -0.2])
+    for ths_ in ([30.0, 90.0, -45.0], np.array([10.0, 200.0]), (15.0,)):
+        inp_ = dict(S=Sd_, theta_deg=list(ths_))
+        ok, r = L.noraise('Twist3.exp(vector, deg)', lambda: Twist3(Sd_).exp(ths_, units='deg'), inp_, 'Twist3.exp(sequence of angles, units="deg")', sig='Twist3.exp(vector,deg):raises')
+        if ok:
+            L.check('Twist3.exp(vector, deg):len', len(r) == len(ths_), inp_, 'one pose per angle expected')
+            if len(r) == len(ths_):
+                for k_, th_ in enumerate(ths_):
+                    L.close('Twist3.exp(vector, deg)', np.asarray(r[k_].A, float), exp6_(Sd_ * (th_ * math.pi / 180)), 1e-9, 1.0, dict(inp_, k=k_), what='exp(θ S) with θ in degrees is not exp(θ·π/180·S)', sig='Twist3.exp(vector,deg)')
     return L.result()
 
 if __name__ == '__main__':
